@@ -97,7 +97,7 @@ SLOTS = ['limit-1s', 'limit', 'limit+1s', 'far-past', 'future', 'missing', 'malf
          'now', 'feb29', 'bad-day', 'malformed-then-old', 'empty-then-old', 'old-with-utc-offset', 'old-with-Z',
          'empty-file', 'header-only']
 TDS = [('/h/.local/share/Trash', lambda p: p), ('/v/.Trash/1000', lambda p: p[3:]), ('/v/.Trash-1000', lambda p: p[3:])]
-CLOCKS = ['clock', 'TRASH_DATE', 'invalid-TRASH_DATE']
+CLOCKS = ['clock', 'TRASH_DATE', 'invalid-TRASH_DATE', 'clock+asked-and-answered-y', 'clock+terminal-and-answered-yes']
 
 
 def fmt(dt):
@@ -175,7 +175,12 @@ def _case(days, s0, s1, s2, clock, kind):
         elif ck == 'invalid-TRASH_DATE':
             env['TRASH_DATE'] = 'yesterday'
         args = [] if dv is None else [str(dv)]
-        steps = [{'snap': '/'}, C('empty', args, env, now=now, cwd='/v'), {'snap': '/'}]
+        stdin, tty = [], False
+        if ck == 'clock+asked-and-answered-y':
+            args, stdin = ['-i'] + args, ['y']       # consent given: exactly the same entries are purged
+        elif ck == 'clock+terminal-and-answered-yes':
+            stdin, tty = ['yes'], True               # (a terminal on stdin makes trash-empty ask)
+        steps = [{'snap': '/'}, C('empty', args, env, now=now, cwd='/v', stdin=stdin, tty=tty), {'snap': '/'}]
         m, res = scen.run_model(world, steps)
         before, r, after = res
         label = 'days=%r' % (dv,)
@@ -224,20 +229,20 @@ def _case(days, s0, s1, s2, clock, kind):
 def w_main(days: int, s0: int, s1: int, s2: int, clock: int, kind: int) -> str:
     """
     pre: PARTITION is None or s0 == PARTITION
-    pre: 0 <= days < 5 and 0 <= s0 < 18 and 0 <= s1 < 18 and 0 <= s2 < 18 and 0 <= clock < 3 and 0 <= kind < 2
+    pre: 0 <= days < 5 and 0 <= s0 < 18 and 0 <= s1 < 18 and 0 <= s2 < 18 and 0 <= clock < 5 and 0 <= kind < 2
     post: _ == ''
     """
-    return _case(rt.sel(days, 5), rt.sel(s0, 18), rt.sel(s1, 18), rt.sel(s2, 18), rt.sel(clock, 3), rt.of([0, 2], kind))
+    return _case(rt.sel(days, 5), rt.sel(s0, 18), rt.sel(s1, 18), rt.sel(s2, 18), rt.sel(clock, 5), rt.of([0, 2], kind))
 
 
 def w_quick(days: int, s0: int, clock: int, kind: int) -> str:
     """
     pre: PARTITION is None or days == PARTITION
-    pre: 0 <= days < 5 and 0 <= s0 < 18 and 0 <= clock < 3 and 0 <= kind < 6
+    pre: 0 <= days < 5 and 0 <= s0 < 18 and 0 <= clock < 5 and 0 <= kind < 6
     post: _ == ''
     """
     s = rt.sel(s0, 18)
-    return _case(rt.sel(days, 5), s, (s + 1) % 18, (s + 5) % 18, rt.sel(clock, 3), rt.sel(kind, 6))
+    return _case(rt.sel(days, 5), s, (s + 1) % 18, (s + 5) % 18, rt.sel(clock, 5), rt.sel(kind, 6))
 
 
 # ---------------------------------------------------------------- a trash-put completing while trash-empty DAYS runs
@@ -302,7 +307,7 @@ def obligations(tier):
            bounds='DAYS absent or 0..400 symbolic; 10 DeletionDate line shapes; now within +-3 s of the limit (symbolic)',
            stubs=['content reader', 'clock']),
         CH('W_slots_quick', MOD, 'w_quick', timeout=600, partitions=list(range(5)), engine='W', regime='selector', encodes=K.EMPTY_FUNCS, stubs=K.STUBS,
-           bounds='5 DAYS x 18 date slots (x2 derived neighbours) x 3 clock sources x 6 kinds'),
+           bounds='5 DAYS x 18 date slots (x2 derived neighbours) x 5 clock sources / ways of consenting x 6 kinds'),
     ]
     obs.append(CH('W_put_completes_while_empty_runs', MOD, 'w_conc', timeout=1200, partitions=[(d, t) for d in range(3) for t in range(2)], engine='W', regime='selector',
                   encodes=K.EMPTY_FUNCS + K.PUT_FUNCS + ['vf.sched replay-stepping'], stubs=K.STUBS,
@@ -310,6 +315,6 @@ def obligations(tier):
     if tier == 'thorough':
         obs.append(CH('W_slots_product', MOD, 'w_main', timeout=3000, partitions=list(range(18)), twin=False, engine='W',
                       regime='selector', encodes=K.EMPTY_FUNCS, stubs=K.STUBS,
-                      bounds='5 DAYS x 18^3 date slots over 3 trash dirs x 3 clock sources x 2 kinds'))
+                      bounds='5 DAYS x 18^3 date slots over 3 trash dirs x 5 clock sources / ways of consenting x 2 kinds'))
     from harness import kpair
     return kpair.obligations(tier) + obs
